@@ -167,15 +167,17 @@ Definition type_of_code (c : Z) : source_type :=
 Definition mk_table (t : list (Z * (Z * Z))) : list (Z * source_snapshot) :=
   map (fun e => (fst e, SNtp (mkSnap (fst (snd e)) (snd (snd e)) 0 0 None) None)) t.
 
-Fixpoint run_updates (ls : Z) (table : list (Z * source_snapshot)) (pub : ntp_snapshot)
+(* [own]: does the published filter contain our server id (the initial NtpSnapshot::default() has an
+   empty filter; every computed advertisement contains the id: C33_advertise) *)
+Fixpoint run_updates (ls : Z) (table : list (Z * source_snapshot)) (pub : ntp_snapshot) (own : Z)
     (ups : list (list (Z * Z))) : list Z :=
   match ups with
   | [] => []
   | u :: r =>
-      match update_used_sources ls [] table pub (map (fun e => (fst e, type_of_code (snd e))) u) with
-      | Ok p => [a_stratum p; a_reference_id p;
-                 match contains_id (a_filter p) [] with Ok b => b2z b | _ => -99 end]
-                ++ run_updates ls table p r
+      let used := map (fun e => (fst e, type_of_code (snd e))) u in
+      match update_used_sources ls [] table pub used with
+      | Ok p => let own' := match resolve table used with Some _ => 1 | None => own end in
+                [a_stratum p; a_reference_id p; own'] ++ run_updates ls table p own' r
       | _ => [-99]
       end
   end.
@@ -185,8 +187,8 @@ Definition run_c33 (c : c33case) : list Z :=
   | CAccept ls ids st sid rid reach bl =>
       [err_code (accept_synchronization ls ids (mkSnap st sid rid reach (bloom_of_code bl)))]
   | CAdvertise ls t ups =>
-      run_updates ls (mk_table t) (mkNtp DEFAULT_SNAPSHOT_STRATUM REFID_NONE bf_new) ups
+      run_updates ls (mk_table t) (mkNtp DEFAULT_SNAPSHOT_STRATUM REFID_NONE bf_new) 0 ups
   | CEndToEnd ls ids srcs ups =>
       flat_map (e2e_flags ls ids) srcs ++
-      run_updates ls (e2e_table srcs) (mkNtp DEFAULT_SNAPSHOT_STRATUM REFID_NONE bf_new) ups
+      run_updates ls (e2e_table srcs) (mkNtp DEFAULT_SNAPSHOT_STRATUM REFID_NONE bf_new) 0 ups
   end.
